@@ -8,6 +8,7 @@
 #include <GeographicLib/TransverseMercator.hpp>
 #include <GeographicLib/TransverseMercatorExact.hpp>
 #include <functional>
+#include <map>
 #include <memory>
 #include <string>
 #include <vector>
@@ -30,6 +31,7 @@ struct Par {
   // of distance from the (anti)central meridian  <= 35, <= 50, <= 60, <= 70, <= (1-2|e|)90 ; each >= 4 x worst observed on the unchanged tree
   double env[5];
 };
+static const double BIG = 1e30;
 static const Par PARS[] = {
   {"WGS84/0.9996", WGS84_A, WGS84_F, 0.9996, true, true, true, true, {0, 4e-7, 2.5e-5, 7e-3, 0.35}},
   {"WGS84/1", WGS84_A, WGS84_F, 1.0, true, true, true, false, {0, 4e-7, 2.5e-5, 7e-3, 0.35}},
@@ -39,6 +41,19 @@ static const Par PARS[] = {
   {"f=+0.01", WGS84_A, 0.01, 1.0, false, true, false, false, {4e-6, 8e-4, 0.06, 0.5, 0.5}},
   {"f=-0.01", WGS84_A, -0.01, 1.0, false, false, false, false, {4e-6, 7e-4, 0.05, 0.5, 0.5}},
   {"f=+0.1", WGS84_A, 0.1, 1.0, false, true, false, false, {0.3, 0.3, 0.3, 0.3, 0.3}},
+  // ---- added for the deep thorough tier: further terrestrial ellipsoids and scales (documented accuracy applies), prolate counterparts, intermediate flattenings
+  {"Intl1924/0.9996", 6378388.0, 1 / 297.0, 0.9996, true, true, false, false, {0, 4e-7, 2.5e-5, 7e-3, 0.35}},
+  {"Clarke1866/0.9999", 6378206.4, 1 / 294.9786982, 0.9999, true, true, false, false, {0, 4e-7, 2.5e-5, 7e-3, 0.35}},
+  {"Bessel1841/1", 6377397.155, 1 / 299.1528128, 1.0, true, true, false, false, {0, 4e-7, 2.5e-5, 7e-3, 0.35}},
+  {"Krassovsky/1", 6378245.0, 1 / 298.3, 1.0, true, true, false, false, {0, 4e-7, 2.5e-5, 7e-3, 0.35}},
+  {"GRS80/k0=0.5", 6378137.0, 1 / 298.257222101, 0.5, true, true, false, false, {0, 4e-7, 2.5e-5, 7e-3, 0.35}},
+  {"WGS84/k0=3", WGS84_A, WGS84_F, 3.0, true, true, false, false, {0, 4e-7, 2.5e-5, 7e-3, 0.35}},
+  {"f=+1e-4", WGS84_A, 1e-4, 1.0, true, true, false, false, {0, 4e-7, 2.5e-5, 7e-3, 0.35}},
+  {"f=+0.002", WGS84_A, 0.002, 0.9996, true, true, false, false, {0, 4e-7, 2.5e-5, 7e-3, 0.35}},
+  {"f=-1/298.257", WGS84_A, -WGS84_F, 0.9996, true, false, false, false, {0, 4e-7, 2.5e-5, 7e-3, 0.35}},
+  {"f=-1/150,a=1,k0=2", 1.0, -1 / 150.0, 2.0, false, false, false, false, {5e-7, 1e-4, 6e-3, 0.8, 0.8}},
+  {"f=+0.05", WGS84_A, 0.05, 1.0, false, true, false, false, {BIG, BIG, BIG, BIG, BIG}},
+  {"f=-0.05", WGS84_A, -0.05, 1.0, false, false, false, false, {BIG, BIG, BIG, BIG, BIG}},
 };
 static const int NPAR = sizeof(PARS) / sizeof(PARS[0]);
 
@@ -182,19 +197,37 @@ int main(int argc, char** argv) {
 
   // latitudes: poles, pole neighbours, equator +-0, the tauf thresholds (3.35 deg: one vs two Newton steps; |taup| > 70
   // <=> lat > 89.18), zetainv0 regime boundaries (psi = e pi/2 <=> 7.4 deg, psi = -e pi/4 <=> -3.7 deg for WGS84), -15 (extended-domain scope)
-  const std::vector<Val> LATP = {{0, 1}, {1e-9, 1}, {1, 0}, {3, 1}, {4, 0}, {7, 1}, {8, 0}, {10, 1}, {14, 0}, {16, 0}, {30, 0}, {45, 1}, {60, 0}, {80, 1},
-                                 {89, 1}, {89.5, 0}, {89.9, 1}, {89.999999, 0}, {89.999999999, 1}, {90, 1}};
+  std::vector<Val> LATP = {{0, 1}, {1e-9, 1}, {1, 0}, {3, 1}, {4, 0}, {7, 1}, {8, 0}, {10, 1}, {14, 0}, {16, 0}, {30, 0}, {45, 1}, {60, 0}, {80, 1},
+                           {89, 1}, {89.5, 0}, {89.9, 1}, {89.999999, 0}, {89.999999999, 1}, {90, 1}};
+  // deep thorough tier: a 2-degree grid plus both sides of further thresholds: AngRound-free small values, tauf one/two Newton steps (3.35), zetainv0 regimes
+  // (psi = e pi/2 <=> 7.36 deg, psi = -e pi/4 <=> -3.68 deg on WGS84; 12.9 / 6.5 deg for f = 0.01; 25.4 / 12.6 deg for f = 0.1), the extended-domain scope (-15),
+  // |taup| > 70 (89.18), psi > 1 (stol2 in zetainv: 49.6 deg), values within 1e-6 .. 1e-3 deg of the equator and of the pole
+  for (int d = 2; d <= 88; d += 2) LATP.push_back({(double)d, 0});
+  for (double v : {1e-6, 1e-3, 0.1, 0.5, 3.3, 3.4, 3.6, 3.7, 6.4, 6.6, 7.3, 7.4, 12.5, 12.7, 12.8, 13.0, 15.0, 25.0, 25.3, 25.5, 35.0, 49.5, 49.7, 55.0, 65.0, 75.0, 85.0, 87.0, 89.1, 89.2, 89.99, 89.999, 89.9999})
+    LATP.push_back({v, 0});
+  { std::vector<Val> u; for (auto& x : LATP) { bool dup = false; for (auto& y : u) if (y.v == x.v) dup = true; if (!dup) u.push_back(x); } LATP = u; }
   std::vector<double> lats;
   for (double v : pick(LATP, T)) { lats.push_back(v); lats.push_back(-v); }     // includes -0
   // longitude offsets; the per-ellipsoid branch values (1-e)90 +- 1e-9, (1-2e)90 +- 0.5 are added below
-  const std::vector<Val> DLONP = {{0, 1}, {1e-9, 1}, {1, 0}, {3, 1}, {10, 1}, {20, 0}, {34.99, 0}, {35, 1}, {35.01, 0}, {50, 0}, {60, 1}, {70, 0}, {75, 1}, {80, 1}, {82, 0},
-                                  {83, 0}, {85, 1}, {89, 1}, {89.999999999, 0}, {90, 1}, {90.000000001, 1}, {91, 0}, {100, 0}, {120, 1}, {145, 0}, {150, 1}, {179, 1}, {179.999999999, 0}, {180, 1}};
-  const std::vector<double> LON0 = {0, 177, -183};
+  std::vector<Val> DLONP = {{0, 1}, {1e-9, 1}, {1, 0}, {3, 1}, {10, 1}, {20, 0}, {34.99, 0}, {35, 1}, {35.01, 0}, {50, 0}, {60, 1}, {70, 0}, {75, 1}, {80, 1}, {82, 0},
+                            {83, 0}, {85, 1}, {89, 1}, {89.999999999, 0}, {90, 1}, {90.000000001, 1}, {91, 0}, {100, 0}, {120, 1}, {145, 0}, {150, 1}, {179, 1}, {179.999999999, 0}, {180, 1}};
+  // deep thorough tier: a 2-degree grid over the whole circle plus small offsets, the far-side images of the near-side thresholds and finer steps towards 90 and 180
+  for (int d = 2; d <= 178; d += 2) DLONP.push_back({(double)d, 0});
+  for (double v : {1e-6, 1e-3, 0.1, 0.5, 5.0, 15.0, 25.0, 45.0, 55.0, 65.0, 72.5, 77.0, 79.0, 81.0, 84.5, 87.0, 89.5, 89.9, 89.99, 89.999999, 90.000001, 90.01, 90.1, 90.5, 93.0, 95.0, 97.0, 97.5, 99.0, 105.0, 115.0, 125.0, 135.0, 144.99, 145.01, 155.0, 165.0, 175.0,
+                   177.0, 179.5, 179.9, 179.999999})
+    DLONP.push_back({v, 0});
+  { std::vector<Val> u; for (auto& x : DLONP) { bool dup = false; for (auto& y : u) if (y.v == x.v) dup = true; if (!dup) u.push_back(x); } DLONP = u; }
+  std::vector<double> LON0 = {0, 177, -183};
+  if (T) LON0.push_back(-3);
 
-  ctx.bound("params", T ? "8 parameter sets: WGS84/0.9996, WGS84/1, sphere a=1, Airy/0.9996012717, (a=1,f=1/150,k0=2), f=+0.01, f=-0.01, f=+0.1" : "3 parameter sets: WGS84/0.9996, WGS84/1, sphere a=1");
-  ctx.bound("lat", fmti((long long)lats.size()) + " latitudes: +-{0, 1e-9, 3, 7, 10, 45, 80, 89, 89.9, 90-1e-9, 90" + std::string(T ? ", 1, 4, 8, 14, 16, 30, 60, 89.5, 90-1e-6" : "") + "}");
-  ctx.bound("dlon", fmti((long long)pick(DLONP, T).size() * 2 + 10) + " longitude offsets: +-{0, 1e-9, 3, 10, 35, 60, 75, 80, 85, 89, 90, 90+1e-9, 120, 150, 179, 180, (1-e)90 and its +-1e-9 neighbours, (1-2e)90+-0.5" + std::string(T ? ", 1, 20, 34.99, 35.01, 50, 70, 82, 83, 90-1e-9, 91, 100, 145, 180-1e-9" : "") + "}");
-  ctx.bound("lon0", "central meridians {0, 177, -183}; each also as lon0+360 and lon-+360 where the shift is exact");
+  ctx.bound("params", T ? "20 parameter sets: WGS84/0.9996, WGS84/1, sphere a=1, Airy/0.9996012717, Intl1924/0.9996, Clarke1866/0.9999, Bessel1841/1, Krassovsky/1, GRS80/k0=0.5, WGS84/k0=3, f=1e-4, f=0.002, "
+                          "(a=1,f=+-1/150,k0=2), f=+-0.01, f=+-0.05, f=0.1, f=-1/298.257" : "3 parameter sets: WGS84/0.9996, WGS84/1, sphere a=1");
+  ctx.bound("lat", fmti((long long)lats.size()) + (T ? " latitudes: +-{0, 1e-9, 1e-6, 1e-3, 0.1, 0.5, 1, every 2 deg to 88, both sides of 3.35, 3.68, 6.5, 7.36, 12.6, 12.9, 25.4, 49.6, 89.18, 15, 89, 89.5, 89.9, 89.99 .. 90-1e-9, 90}"
+                                                      : " latitudes: +-{0, 1e-9, 3, 7, 10, 45, 80, 89, 89.9, 90-1e-9, 90}"));
+  ctx.bound("dlon", fmti((long long)pick(DLONP, T).size() * 2 + 10) + (T ? " longitude offsets: +-{0, 1e-9, 1e-6, 1e-3, 0.1, 0.5, 1, every 2 deg to 178, 34.99/35/35.01 and 144.99/145/145.01, 89.5 .. 90-1e-9, 90, 90+1e-9 .. 90.5, 179.5 .. 180-1e-9, 180, "
+                                                                            "(1-e)90 and its +-1e-9, +-1e-6, +-1e-3, +-0.1 neighbours and their far-side images, (1-2e)90+-0.5}"
+                                                                          : " longitude offsets: +-{0, 1e-9, 3, 10, 35, 60, 75, 80, 85, 89, 90, 90+1e-9, 120, 150, 179, 180, (1-e)90 and its +-1e-9 neighbours, (1-2e)90+-0.5}"));
+  ctx.bound("lon0", T ? "central meridians {0, 177, -183, -3}; each also as lon0+360 and lon-+360 where the shift is exact" : "central meridians {0, 177, -183}; each also as lon0+360 and lon-+360 where the shift is exact");
   ctx.bound("impl", "series, exact, exact+extendp, TransverseMercator(exact=true), TransverseMercator(exact=true,extendp), and the two static UTM() objects on WGS84/0.9996");
   ctx.bound("oracle", "tm_ode long double, Taylor orders 28 (tol 1e-20) and 20 (tol 1e-19), start latitudes 30/50 deg on the via-north path; used where both runs agree to 5 % of the position tolerance; sphere: closed form");
 
@@ -218,10 +251,12 @@ int main(int argc, char** argv) {
     if (P.f > 0) {
       double lb = 90 * (1 - e_lib);
       dl.push_back(lb); dl.push_back(lb - 1e-9); dl.push_back(lb + 1e-9);
+      if (T) for (double d : {1e-6, 1e-3, 0.1}) { dl.push_back(lb - d); dl.push_back(lb + d); dl.push_back(180 - lb - d); dl.push_back(180 - lb + d); }
+      if (T) dl.push_back(180 - lb);
       double l2 = 90 * (1 - 2 * e_lib);
       if (l2 > 1) { dl.push_back(l2 - 0.5); dl.push_back(l2 + 0.5); }
     }
-    std::sort(dl.begin(), dl.end());
+    std::sort(dl.begin(), dl.end()); dl.erase(std::unique(dl.begin(), dl.end()), dl.end());
     std::vector<double> dlons; for (double v : dl) { dlons.push_back(v); dlons.push_back(-v); }
     const ld e_ = sqrtl(fabsl(G.e2)), safe = (1 - 2 * e_) * 90;             // documented "safe side" limit of the series, (1-2e)90 (|e| for prolate)
 
@@ -235,6 +270,7 @@ int main(int argc, char** argv) {
       if (std::fabs(lat) > 45) { ld s2, c2; tm_ode::sincosd<ld>(lat > 0 ? 90 - lat : -90 - lat, s2, c2); cphi = fabsl(s2); }
       const ld Mr = G.Mrad(sphi), Pr = G.Prad(sphi, cphi);
       const ld merid = tm_ode::meridian_distance<ld>(G.e2, (ld)lat * DEGL) * G.a * G.k0;   // central-meridian northing
+      std::map<uint64_t, Ora> cache_std, cache_ext;            // reference values shared by the central meridians (same exact longitude difference)
       for (double lon0 : LON0) for (double dnom : dlons) {
         const double lon = lon0 + dnom;
         const double dlon = eff_dlon(lon0, lon);
@@ -270,8 +306,8 @@ int main(int argc, char** argv) {
 
           Ora R;
           if (!pole) {
-            if (I.extendp) { if (!have_ext) { Oext = expect(G, lat, dlon, true, VT); have_ext = true; } R = Oext; }
-            else { if (!have_std) { Ostd = expect(G, lat, dlon, false, VT); have_std = true; } R = Ostd; }
+            if (I.extendp) { if (!have_ext) { auto it = cache_ext.find(mc::bits(dlon)); if (it == cache_ext.end()) it = cache_ext.emplace(mc::bits(dlon), expect(G, lat, dlon, true, VT)).first; Oext = it->second; have_ext = true; } R = Oext; }
+            else { if (!have_std) { auto it = cache_std.find(mc::bits(dlon)); if (it == cache_std.end()) it = cache_std.emplace(mc::bits(dlon), expect(G, lat, dlon, false, VT)).first; Ostd = it->second; have_std = true; } R = Ostd; }
           }
           ctx.sig((uint64_t)(R.valid ? 1 : 0) + 2 * (uint64_t)R.via_north + 4 * (uint64_t)pole + 8 * (uint64_t)R.yfree);
 
@@ -476,11 +512,23 @@ int main(int argc, char** argv) {
     {
       std::vector<ld> xis = {0, 1e-10L, 0.3L, 1, G.Q - 1e-9L, G.Q, G.Q + 1e-9L, 2, 2 * G.Q - 0.3L, 2 * G.Q - 1e-9L};
       if (T) { xis.push_back(0.01L); xis.push_back(0.7L); xis.push_back(1.3L); xis.push_back(2.5L); xis.push_back(G.Q * 0.25L); }
+      if (T) {   // deep tier: 0.1 steps up to 2Q, both sides of the sigmainv0 thresholds 0.25 E (and -0.25 E through the sign axis), small values, the far-side mirror of small values
+        for (int i = 1; i <= 31; ++i) if (ld(i) / 10 < 2 * G.Q - 1e-6L) xis.push_back(ld(i) / 10);
+        for (ld v : {1e-6L, 1e-3L, 0.05L, 0.25L * G.Q - 0.01L, 0.25L * G.Q + 0.01L, G.Q - 1e-3L, G.Q + 1e-3L, G.Q - 1e-6L, G.Q + 1e-6L, 2 * G.Q - 1e-3L, 2 * G.Q - 1e-6L, 2 * G.Q - 0.05L}) xis.push_back(v);
+        std::sort(xis.begin(), xis.end()); xis.erase(std::unique(xis.begin(), xis.end()), xis.end());
+      }
       std::vector<ld> etas = {0, 1e-10L, 0.1L, 0.3L, 0.6L, 1, 1.5L, 2, 2.5L, 3.5L, 5};
       if (P.f > 0) { etas.push_back(G.etab); etas.push_back(G.etab * (1 - 1e-9L)); etas.push_back(G.etab * (1 + 1e-9L)); etas.push_back(0.75L * G.etab + 0.01L); etas.push_back(1.25L * G.etab + 0.01L); }
       if (T) { etas.push_back(0.01L); etas.push_back(0.45L); etas.push_back(0.8L); etas.push_back(8); }
+      if (T) {   // deep tier: 0.1 steps to 4, the 35-degree edge of the series (0.65), finer steps around the branch easting and the 0.75 / 1.25 (K'-E') thresholds of sigmainv0, large eastings
+        for (int i = 1; i <= 40; ++i) etas.push_back(ld(i) / 10);
+        for (ld v : {1e-6L, 1e-3L, 0.05L, 0.64L, 0.65L, 0.66L, 4.5L, 6.0L, 10.0L, 15.0L}) etas.push_back(v);
+        if (P.f > 0) for (ld v : {0.75L * G.etab - 0.01L, 1.25L * G.etab - 0.01L, G.etab * (1 - 1e-6L), G.etab * (1 + 1e-6L), G.etab * (1 - 1e-3L), G.etab * (1 + 1e-3L), G.etab - 0.05L, G.etab + 0.05L}) etas.push_back(v);
+        std::sort(etas.begin(), etas.end()); etas.erase(std::unique(etas.begin(), etas.end()), etas.end());
+      }
       ctx.bound("reverse-grid", fmti((long long)xis.size() * 2) + " northings y/(a k0) in +-{0, 1e-10, 0.3, 1, Q-1e-9, Q, Q+1e-9, 2, 2Q-0.3, 2Q-1e-9, ..} (Q = quarter meridian/a) x " + fmti((long long)etas.size() * 2) +
-                " eastings x/(a k0) in +-{0, 1e-10, 0.1 .. 5, the branch easting K'-E' and its 1e-9 neighbours, the 0.75/1.25 (K'-E') regime boundaries} x lon0 {0, 177}");
+                " eastings x/(a k0) in +-{0, 1e-10, 0.1 .. 5, the branch easting K'-E' and its 1e-9 neighbours, the 0.75/1.25 (K'-E') regime boundaries} x lon0 {0, 177}" +
+                std::string(T ? "; deep tier: northings in 0.1 steps to 2Q with 1e-6/1e-3 neighbours of 0, Q, 2Q and of 0.25Q; eastings in 0.1 steps to 4, 0.64/0.65/0.66, K'-E' +- {1e-9 rel, 1e-6 rel, 1e-3 rel, 0.05}, up to 15" : ""));
       for (size_t xi_i = 0; xi_i < xis.size(); ++xi_i) for (int sx = 1; sx >= -1; sx -= 2) {
         if (!ctx.take()) continue;
         for (ld eta0 : etas) for (int se = 1; se >= -1; se -= 2) for (double lon0 : {0.0, 177.0}) for (size_t ii = 0; ii < impls.size(); ++ii) {
